@@ -84,14 +84,14 @@ type Builtin struct {
 
 // Fault kinds.
 const (
-	FaultNone        = iota
-	FaultRaise       // one-shot error with a <fault> string, at any micro-step
-	FaultHostString  // host function fails with a <fault> string (Go panic / RaiseError), host-call micro-steps only
-	FaultHostTable   // host function raises a fresh table
-	FaultHostNumber  // host function raises the number 7777
-	FaultHostFalse   // host function raises false
-	FaultHostNil     // host function raises nil
-	FaultCancel      // sticky cancellation: not catchable by Lua-level handlers
+	FaultNone       = iota
+	FaultRaise      // one-shot error with a <fault> string, at any micro-step
+	FaultHostString // host function fails with a <fault> string (Go panic / RaiseError), host-call micro-steps only
+	FaultHostTable  // host function raises a fresh table
+	FaultHostNumber // host function raises the number 7777
+	FaultHostFalse  // host function raises false
+	FaultHostNil    // host function raises nil
+	FaultCancel     // sticky cancellation: not catchable by Lua-level handlers
 )
 
 // IsHostKind reports whether the fault kind strikes only at host-call micro-steps.
@@ -138,13 +138,13 @@ type Machine struct {
 	MaxSteps  int64
 	StoreRTL  bool // multiple assignment stores right-to-left
 
-	cur      *thread
-	main     *thread
-	ctx      []string // dynamic context stack: pcall, xpcall, handler, co, meta, iter, cmp, gsub
-	allCos   []*Coroutine
-	TopError string // normalised top-level error, "" if none
+	cur       *thread
+	main      *thread
+	ctx       []string // dynamic context stack: pcall, xpcall, handler, co, meta, iter, cmp, gsub
+	allCos    []*Coroutine
+	TopError  string // normalised top-level error, "" if none
 	Cancelled bool
-	Runaway  bool
+	Runaway   bool
 
 	chunkName string
 }
